@@ -2,6 +2,7 @@
 their traces replayed through the Lean driver, monitor verdicts, replay objects."""
 import hashlib
 import json
+import re
 import os
 import random
 
@@ -70,6 +71,23 @@ class Model(object):
         return 100
 
 
+_LIST = re.compile(r"\[[^\[\]]+\]")
+_NUM = re.compile(r"(?<![A-Za-z_#])-?\d+(?:\.\d+)?")
+_NUMS = re.compile(r"#(?:,#)+")
+
+
+def line_kind(line):
+    """the kind of a trace line: numbers and list contents abstracted away, flags and names kept (they select the branch)"""
+    s = line
+    while True:
+        t = _LIST.sub("[..]", s)
+        if t == s:
+            break
+        s = t
+    s = _NUM.sub("#", s)
+    return _NUMS.sub("#,#", s)
+
+
 def run_batch(model, prop, items, use_driver=True, keep_samples=2):
     """items: list of (scenario, chooser_kind, chooser_seed, choices|None)"""
     res = {"evaluations": 0, "transitions": 0, "context_switches": 0, "traces_validated": 0, "shapes": {},
@@ -102,6 +120,9 @@ def run_batch(model, prop, items, use_driver=True, keep_samples=2):
             res["known"].append({"msg": kf["msg"], "replay": rp, "signature": kf["signature"]})
         text.append(("run %d %s %s" % (idx, model.name, model.header(sc))).rstrip())
         text.extend(r["lines"])
+        for ln in r["lines"]:
+            kk = "kind:" + line_kind(ln)
+            res["extra"][kk] = res["extra"].get(kk, 0) + 1
         meta.append((sc, r))
         if len(res["samples"]) < keep_samples and r["switches"] > 2:
             res["samples"].append({"scenario": sc, "schedule_prefix": r["choices"][:40], "outcome": r["outcome"],
